@@ -176,6 +176,9 @@ func exec(t *testing.T, pa any) (out core.Outcome) {
 		notePacked()
 		drv = sched.New(p.Sched)
 		drv.MaxSteps = 3000
+		// every value that is EVER in packed-refs counts as "packed" for the readers' classification: a PackRefs
+		// publishes its rewrite (rename) before it returns, so a reader can fall back to it mid-pack
+		drv.OnStep = func(int) { notePacked() }
 		var sharedSt *filesystem.Storage
 		if p.Shared {
 			// created before the disk is attached to the driver: its I/O is setup, not workload
